@@ -36,8 +36,8 @@ def cases_for(ctx):
     cases.append({'behaviours': ['exit', 'exit', 'equal'], 'dedicated': True, 'recycle': 5, 'keep': False})
     cases.append({'behaviours': ['equal', 'late', 'late', 'equal'], 'dedicated': True, 'recycle': 2, 'keep': True})
     cases.append({'behaviours': ['equal', 'die_idle', 'equal', 'different', 'equal', 'equal'], 'dedicated': True, 'recycle': 5, 'keep': True})
-    cases.append({'behaviours': ['bare_status', 'different', 'player_raises'], 'dedicated': False, 'recycle': 5, 'keep': False, 'pair': 'B'})
-    cases.append({'behaviours': ['bare_status', 'different', 'player_raises'], 'dedicated': True, 'recycle': 1, 'keep': False, 'pair': 'B'})
+    cases.append({'behaviours': ['bare_status', 'different', 'player_raises', 'spawn_child', 'equal'], 'dedicated': False, 'recycle': 5, 'keep': False, 'pair': 'B'})
+    cases.append({'behaviours': ['bare_status', 'different', 'player_raises', 'spawn_child', 'equal'], 'dedicated': True, 'recycle': 1, 'keep': False, 'pair': 'B'})
     if ctx.quick:
         return cases
     rng = ctx.rng
